@@ -38,6 +38,10 @@ type ReadCase struct {
 	// truthful about what the source holds at that moment.
 	Sized       bool `json:"sized,omitempty"`
 	AvailAtWrap int  `json:"avail_at_wrap,omitempty"`
+	// StdWrap, when positive, puts a standard io.LimitedReader with budget
+	// Limit+StdWrap-2 (one less, equal, one more) between the source and the
+	// reader under test: a reader type a constructor may recognise.
+	StdWrap int `json:"std_wrap,omitempty"`
 }
 
 // sizedScripted is a scripted reader that also reports its unread length.
@@ -97,11 +101,17 @@ func checkRead(c ReadCase) error {
 	under := &scripted{n: c.Len, steps: c.Steps}
 	model := &scripted{n: c.Len, steps: c.Steps}
 	var r io.Reader
+	var modelR io.Reader = model
 	if c.Sized {
 		avail := min(c.AvailAtWrap, c.Len)
 		r = ioutil.LimitReader(sizedScripted{scripted: under, avail: &avail}, c.Limit)
 		avail = c.Len // the source grows after it has been wrapped
 		vp.Class("read:sized-source-that-grows-after-wrapping")
+	} else if c.StdWrap > 0 && c.Limit < 1<<62 {
+		budget := int64(c.Limit) + int64(c.StdWrap) - 2
+		r = ioutil.LimitReader(io.LimitReader(under, budget), c.Limit)
+		modelR = io.LimitReader(model, budget)
+		vp.Class("read:std-io.LimitedReader-underneath")
 	} else {
 		r = ioutil.LimitReader(under, c.Limit)
 	}
@@ -140,7 +150,7 @@ func checkRead(c ReadCase) error {
 			}
 		}
 		mp := make([]byte, want)
-		mn, merr := model.Read(mp)
+		mn, merr := modelR.Read(mp)
 		if mn < 0 {
 			// Nothing can have been delivered by this call: 0 bytes, some
 			// error, and the allowance is what it was.
@@ -212,9 +222,12 @@ var readProp = vp.Register(vp.Prop[ReadCase]{
 			return Step{N: rapid.IntRange(0, 64).Draw(t, "n"), Err: rapid.SampledFrom([]int{0, 0, 0, 0, 0, 0, 0, 1, 1, 2, 2, 3}).Draw(t, "err")}
 		}), 0, 14).Draw(t, "steps")
 		c := ReadCase{Len: l, Limit: limit, Steps: steps, Sizes: rapid.SliceOfN(rapid.IntRange(0, 64), 1, 20).Draw(t, "sizes")}
-		if rapid.IntRange(0, 3).Draw(t, "sized") == 0 {
+		switch rapid.IntRange(0, 5).Draw(t, "sized") {
+		case 0:
 			c.Sized = true
 			c.AvailAtWrap = rapid.IntRange(0, l).Draw(t, "avail")
+		case 1:
+			c.StdWrap = rapid.IntRange(1, 3).Draw(t, "stdwrap")
 		}
 		return c
 	},
